@@ -137,12 +137,14 @@ CLAIMED = {
         technique='Coq proofs over R of a state+exception step model + vm_compute correspondence + all-orders load oracle'),
     'C18': dict(
         text='Machine-checked proof (Coq): the meaning of "to the six significant digits written" - any correct 6-digit rounding has relative '
-             'error <= 5e-6 (and the reference rounding used by the check is a correct rounding). The formatter/loader text layer is decided '
+             'error <= 5e-6 (and the reference rounding used by the check is a correct rounding); over the reals: writing in any unit of positive size '
+             'and reading back keeps that relative error in SI, and a non-dimensional value recomputed from two written values (H/(R T_ref)) is off by '
+             'at most 2 eps/(1-eps) - the tolerances of the oracle. The formatter/loader text layer is decided '
              'by execution on every run: yaml_format(units) -> library file -> GroupLibrary.Load for random correlations (incl. zero / missing '
              'parts, -0.0, 13-digit values) x 8 unit choices and for groups of every shipped library: exactness in the non-dimensional form, '
              '6-digit bounds in the dimensional form, presence of every part, temperatures equal to the 6-digit rounding (checked in Coq).',
         design='5 / C18',
-        note=TB + 'Closed under the global context. Partial: the theorem covers the rounding bound; presence/exactness are decided by the '
+        note=TB + 'Rounding bound over Q closed under the global context; the two value-level theorems over R use the standard-library real-number axioms. Partial: the theorems cover the rounding bounds; presence/exactness are decided by the '
              'round-trip oracle because the text layer (PyYAML, NumPy repr) is runtime.',
         technique='Coq proof of the rounding bound over Q + executed round-trip oracle + vm_compute check of written temperatures'),
     'C09': dict(
